@@ -1,6 +1,8 @@
 import Srtla.Model.Sys
 import Srtla.Lemmas.Housekeeping
 import Srtla.Lemmas.ReconnectLive
+import Srtla.Lemmas.Audit2BLive
+import Srtla.Lemmas.Audit2BRegroup
 /-!
 # C08 — failed uplinks are detected, retried forever, and rejoin cleanly
 
@@ -18,6 +20,12 @@ is involved.  `Hk.*` names are helper definitions of `Lemmas/Housekeeping.lean`:
 * `hkLink classic now pending fails j l` — what one pass of the per-link housekeeping loop does to
   link `j` (`fails`: a socket re-creation failure is injected for its conn id, `Sys.failBind`);
 * `Clean l` — window 20000, empty packet log, empty batch queue, in-flight 0, not connected.
+
+Sections 11–13 (audit round 2): the liveness clause with a LATE answer (`C08_reconnect_within_30s_sys_late_answer`),
+for the FIRST registration of a never-established link (`C08_first_registration_cadence`,
+`C08_first_registration_live_sys`, `_bound`) and the re-grouping chain when all links are down and the receiver forgot
+the group (`C08_regroup_chain_sys_partial`); helper lemmas in `Lemmas/Audit2B{Hk,Live,Regroup}.lean`
+(`Audit2B.hkDue`, `Audit2B.bystander`).
 -/
 namespace Srtla.Props.C08
 open Srtla Srtla.Gen Srtla.Conn Srtla.Select Srtla.Link Srtla.Sys Srtla.Hk Scalar
@@ -1691,6 +1699,8 @@ routed —, so with `--conn-timeout-ms 30000` (or a runtime raise) and no client
 down after the 5000 ms default.  Since the fix the housekeeping arm of the event loop is the two-event sequence
 `[.syncTimeout, .hk now]` (`sync_conn_timeout`, then `handle_housekeeping`). -/
 
+theorem C08_aux_run_cons (s : Sys F) (e : Ev) (es : List Ev) : run s (e :: es) = run (step s e).1 es := rfl
+
 theorem C08_aux_run_append (s : Sys F) (a b : List Ev) : run s (a ++ b) = run (run s a) b := by
   induction a generalizing s with
   | nil => rfl
@@ -1832,5 +1842,990 @@ example : ∃ lr, exLive.core.lastReceived = some lr ∧ 31000 - lr ≥ 30000 :=
     rw [← this]; exact h1
   · have : (run exStale (exArmRun.take 7)).cfg.connTimeoutMs = 30000 := by decide +kernel
     rw [this] at h2; exact h2
+
+/-! ## 11. Audit round 2 (a): the answer may come LATE
+
+Hypothesis (ii) of `C08_reconnect_within_30s_sys` asks for the REG3 "before the next tick and within 1100 ms".
+The REG3 arm of `process_uplink_packet` is unconditional: whenever the REG3 arrives — after any number of further
+ticks, also after the link's NEXT reconnect attempt — the link is connected.  Here (ii) is relaxed to "within
+`D` ms, at any later point of the run" (`AnswerLate`, `AnsweredLate`); the bound becomes
+`last_attempt + 5000 + 1100 + D`. -/
+
+/-- Somewhere in the rest of the run a REG3 for conn id `cid` is processed, and the FIRST such is processed at a
+clock value `≤ dl` — housekeeping ticks, reconnect attempts included, may come in between. -/
+def AnswerLate (cid dl : Nat) : List Ev → Prop
+  | [] => False
+  | .uplink d c data :: es =>
+    if isReg3For cid (.uplink d c data) then d ≤ dl else AnswerLate cid dl es
+  | _ :: es => AnswerLate cid dl es
+
+/-- (ii, relaxed) Every tick (at `t`) whose wire output contains a REG2 (0x9201 = 37377) for conn id `cid` is
+followed, at ANY later point of the run, by an uplink REG3 for `cid` processed by `t + D`. -/
+def AnsweredLate (D cid : Nat) : Sys F → List Ev → Prop
+  | _, [] => True
+  | s, e :: es =>
+    (∀ t, e = .hk t → (∃ p ∈ (step s e).2.wire, p.1 = cid ∧ Codec.getPacketTypeS p.2 = some 37377) →
+      AnswerLate cid (t + D) es) ∧
+    AnsweredLate D cid (step s e).1 es
+
+/-- The old hypothesis implies the relaxed one. -/
+theorem C08_aux_answerBy_late (cid dl : Nat) (es : List Ev) (h : AnswerBy cid dl es) : AnswerLate cid dl es := by
+  induction es with
+  | nil => exact h
+  | cons e es ih =>
+    cases e with
+    | hk t => simp [AnswerBy] at h
+    | uplink d c data =>
+      simp only [AnswerBy] at h
+      simp only [AnswerLate]
+      split
+      · rename_i hc; rw [if_pos hc] at h; exact h
+      · rename_i hc; rw [if_neg hc] at h; exact ih h
+    | client now pkt => exact ih (by simpa only [AnswerBy] using h)
+    | flush now => exact ih (by simpa only [AnswerBy] using h)
+    | setCfg cfg => exact ih (by simpa only [AnswerBy] using h)
+    | crit d => exact ih (by simpa only [AnswerBy] using h)
+    | failNext c => exact ih (by simpa only [AnswerBy] using h)
+    | failBind c => exact ih (by simpa only [AnswerBy] using h)
+    | syncTimeout => exact ih (by simpa only [AnswerBy] using h)
+    | stamp idx weak ld ccb cct => exact ih (by simpa only [AnswerBy] using h)
+
+theorem C08_aux_answered_late (cid : Nat) (evs : List Ev) :
+    ∀ s : Sys F, Answered cid s evs → AnsweredLate 1100 cid s evs := by
+  induction evs with
+  | nil => intro s _; trivial
+  | cons e es ih =>
+    intro s h
+    exact ⟨fun t he hw => C08_aux_answerBy_late cid _ es (h.1 t he hw), ih _ h.2⟩
+
+/-- The answer phase, late form: from a `LiveInv` state, if a REG3 for `cid` comes ANYWHERE later in the run (the
+first one by `dl`), then at the first such event link `j` re-joins — whatever happens in between (ticks, further
+reconnect attempts, stragglers, tear-downs of the still-down link). -/
+theorem C08_aux_answer_late (cid j dl : Nat) (evs : List Ev) :
+    ∀ (s : Sys F) (l : FLink F), LiveInv cid j s l → (∀ e ∈ evs, e ≠ .failBind cid) → AnswerLate cid dl evs →
+      ∃ pre d data post, evs = pre ++ .uplink d cid data :: post ∧
+        Codec.getPacketTypeS data = some 37378 ∧ d ≤ dl ∧
+        ∃ l', (run s (pre ++ [.uplink d cid data])).links[j]? = some l' ∧
+          l'.core.connected = true ∧ l'.core.window = 20000 ∧ l'.core.inFlight = 0 ∧ l'.core.log = [] ∧
+          l'.queue = [] ∧ l'.core.phase = .warming 0 d := by
+  induction evs with
+  | nil => intro s l _ _ ha; exact absurd ha (by simp [AnswerLate])
+  | cons e es ih =>
+    intro s l hinv hne ha
+    have hne' : ∀ e' ∈ es, e' ≠ .failBind cid := fun e' he' => hne e' (List.mem_cons_of_mem _ he')
+    by_cases hr : isReg3For cid e = true
+    · cases e with
+      | uplink d c data =>
+        simp only [isReg3For, Bool.and_eq_true, beq_iff_eq] at hr
+        obtain ⟨hc, hty⟩ := hr
+        subst hc
+        have hd : d ≤ dl := by
+          have : isReg3For c (.uplink d c data) = true := by simp [isReg3For, hty]
+          simp only [AnswerLate, this, if_true] at ha
+          exact ha
+        obtain ⟨l', hl', hp⟩ := C08_aux_rejoin c j s l hinv d data hty
+        exact ⟨[], d, data, es, rfl, hty, hd, l', hl', hp⟩
+      | _ => simp [isReg3For] at hr
+    · have hr' : isReg3For cid e = false := by simpa using hr
+      have ha' : AnswerLate cid dl es := by
+        cases e with
+        | hk t => simpa only [AnswerLate] using ha
+        | uplink d c data => simpa only [AnswerLate, hr', Bool.false_eq_true, if_false] using ha
+        | client now pkt => simpa only [AnswerLate] using ha
+        | flush now => simpa only [AnswerLate] using ha
+        | setCfg cfg => simpa only [AnswerLate] using ha
+        | crit d => simpa only [AnswerLate] using ha
+        | failNext c => simpa only [AnswerLate] using ha
+        | failBind c => simpa only [AnswerLate] using ha
+        | syncTimeout => simpa only [AnswerLate] using ha
+        | stamp idx weak ld ccb cct => simpa only [AnswerLate] using ha
+      obtain ⟨l1, hl1, hc⟩ := C08_aux_liveInv_step cid j s l e hinv (hne e (List.mem_cons_self))
+      rcases hc with ⟨hinv1, -⟩ | ⟨now, data, he, hty, -⟩
+      · obtain ⟨pre, d, data, post, e1, e2, e3, l', hl', hp⟩ := ih _ l1 hinv1 hne' ha'
+        exact ⟨e :: pre, d, data, post, by rw [e1]; rfl, e2, e3, l', hl', hp⟩
+      · rw [he] at hr'
+        simp [isReg3For, hty] at hr'
+
+/-- The walk of `C08_aux_live_sys` with the relaxed answer hypothesis. -/
+theorem C08_aux_live_late (cid j T0 D : Nat) (evs : List Ev) :
+    ∀ (s : Sys F) (l : FLink F) (pt lo : Nat), LiveInv cid j s l → (∀ e ∈ evs, e ≠ .failBind cid) →
+      MonoFrom lo evs → TickGaps pt evs → (pt < l.lastAttemptMs + 5000 ∨ pt ≤ T0) →
+      (∃ t, Ev.hk t ∈ evs ∧ t ≥ l.lastAttemptMs + 5000) →
+      AnsweredLate D cid s evs → NoPendingAtTicks s evs →
+      ∃ pre d data post, evs = pre ++ .uplink d cid data :: post ∧
+        Codec.getPacketTypeS data = some 37378 ∧
+        (d < l.lastAttemptMs + 5000 + 1100 + max D 1100 ∨ d ≤ T0 + 1100 + max D 1100) ∧
+        ∃ l', (run s (pre ++ [.uplink d cid data])).links[j]? = some l' ∧
+          l'.core.connected = true ∧ l'.core.window = 20000 ∧ l'.core.inFlight = 0 ∧ l'.core.log = [] ∧
+          l'.queue = [] ∧ l'.core.phase = .warming 0 d := by
+  induction evs with
+  | nil => intro s l pt lo _ _ _ _ _ hex; obtain ⟨t, ht, -⟩ := hex; cases ht
+  | cons e es ih =>
+    intro s l pt lo hinv hne hm hg hpt hex hans hpend
+    have hne' : ∀ e' ∈ es, e' ≠ .failBind cid := fun e' he' => hne e' (List.mem_cons_of_mem _ he')
+    obtain ⟨hans0, hans'⟩ := hans
+    obtain ⟨hpend0, hpend'⟩ := hpend
+    obtain ⟨l1, hl1, hc⟩ := C08_aux_liveInv_step cid j s l e hinv (hne e (List.mem_cons_self))
+    have hex_tail : (∀ t, e = .hk t → t < l.lastAttemptMs + 5000) →
+        ∃ t, Ev.hk t ∈ es ∧ t ≥ l.lastAttemptMs + 5000 := by
+      intro hnot
+      obtain ⟨t, ht, hge⟩ := hex
+      rcases List.mem_cons.1 ht with h0 | h0
+      · have := hnot t h0.symm; omega
+      · exact ⟨t, h0, hge⟩
+    by_cases htick : ∃ t, e = .hk t
+    · obtain ⟨t, rfl⟩ := htick
+      simp only [MonoFrom, evClock, TickGaps] at hm hg
+      have hto := C08_aux_down_timed_out l hinv.down t
+      by_cases hsa : l.shouldAttemptReconnect t = true
+      · have hready := (C08_aux_down_ready l hinv.down t).1 hsa
+        have hinv1 : LiveInv cid j (step s (.hk t)).1 l1 := by
+          rcases hc with ⟨h1, -⟩ | ⟨now, data, he, -⟩
+          · exact h1
+          · cases he
+        have hwire : (cid, Codec.createReg2 s.reg.id) ∈ (step s (.hk t)).2.wire := by
+          have := hk_wire_reg2 s t j l hinv.link (hpend0 t rfl) hinv.down.2.1 hto hsa
+          rw [hinv.id] at this; exact this
+        have hab : AnswerLate cid (t + D) es :=
+          hans0 t rfl ⟨_, hwire, rfl, C08_aux_reg2_type _⟩
+        obtain ⟨pre, d, data, post, e1, e2, e3, l', hl', hp⟩ :=
+          C08_aux_answer_late cid j (t + D) es _ l1 hinv1 hne' hab
+        refine ⟨.hk t :: pre, d, data, post, by rw [e1]; rfl, e2, ?_, l', hl', hp⟩
+        omega
+      · have hsa' : ¬ (l.lastAttemptMs = 0 ∨ t - l.lastAttemptMs ≥ 5000) :=
+          fun hr => hsa ((C08_aux_down_ready l hinv.down t).2 hr)
+        have hlt : t < l.lastAttemptMs + 5000 := by omega
+        rcases hc with ⟨hinv1, hla | ⟨now, he, hsa2⟩⟩ | ⟨now, data, he, -⟩
+        · obtain ⟨pre, d, data, post, e1, e2, e3, l', hl', hp⟩ :=
+            ih _ l1 t t hinv1 hne' hm.2 hg.2 (Or.inl (by rw [hla]; exact hlt))
+              (by rw [hla]; exact hex_tail (fun t' ht' => by cases ht'; exact hlt)) hans' hpend'
+          rw [hla] at e3
+          exact ⟨.hk t :: pre, d, data, post, by rw [e1]; rfl, e2, e3, l', hl', hp⟩
+        · cases he; exact absurd hsa2 hsa
+        · cases he
+    · have hnt : ∀ t, e ≠ .hk t := fun t h => htick ⟨t, h⟩
+      have hex' := hex_tail (fun t h => absurd h (hnt t))
+      have hg' : TickGaps pt es := by
+        cases e with
+        | hk t => exact absurd rfl (hnt t)
+        | _ => simpa only [TickGaps] using hg
+      rcases hc with ⟨hinv1, hla | ⟨now, he, -⟩⟩ | ⟨now, data, he, hty, -⟩
+      · have hm' : ∃ lo', MonoFrom lo' es := by
+          cases e with
+          | hk t => exact absurd rfl (hnt t)
+          | client now pkt => simp only [MonoFrom, evClock] at hm; exact ⟨_, hm.2⟩
+          | uplink now c data => simp only [MonoFrom, evClock] at hm; exact ⟨_, hm.2⟩
+          | flush now => simp only [MonoFrom, evClock] at hm; exact ⟨_, hm.2⟩
+          | setCfg cfg => simp only [MonoFrom, evClock] at hm; exact ⟨_, hm⟩
+          | crit x => simp only [MonoFrom, evClock] at hm; exact ⟨_, hm⟩
+          | failNext c => simp only [MonoFrom, evClock] at hm; exact ⟨_, hm⟩
+          | failBind c => simp only [MonoFrom, evClock] at hm; exact ⟨_, hm⟩
+          | syncTimeout => simp only [MonoFrom, evClock] at hm; exact ⟨_, hm⟩
+          | stamp idx weak ld ccb cct => simp only [MonoFrom, evClock] at hm; exact ⟨_, hm⟩
+        obtain ⟨lo', hm'⟩ := hm'
+        obtain ⟨pre, d, data, post, e1, e2, e3, l', hl', hp⟩ :=
+          ih _ l1 pt lo' hinv1 hne' hm' hg' (by rw [hla]; exact hpt) (by rw [hla]; exact hex') hans' hpend'
+        rw [hla] at e3
+        exact ⟨e :: pre, d, data, post, by rw [e1]; rfl, e2, e3, l', hl', hp⟩
+      · exact absurd he (hnt now)
+      · subst he
+        simp only [MonoFrom, evClock] at hm
+        obtain ⟨t', ht', -⟩ := hex'
+        have hd := C08_aux_clock_before_tick now pt es hm.2 hg' ⟨t', ht'⟩
+        obtain ⟨l', hl', hp⟩ := C08_aux_rejoin cid j s l hinv now data hty
+        refine ⟨[], now, data, es, rfl, hty, ?_, l', hl', hp⟩
+        omega
+
+/-- **Connected again (run level), the answer may come late.**  As `C08_reconnect_within_30s_sys`, with hypothesis
+(ii) relaxed: every tick whose wire output contains a REG2 for this conn id is followed, at ANY later point of the
+run — after further ticks, after further (fruitless) reconnect attempts of the same link, interleaved with anything —
+by a REG3 for it processed within `D` ms of that tick.  Then the run has a prefix ending in a REG3 for this conn id,
+processed at clock `d`, after which link `j` is connected with clean accounting, and
+`d < last_attempt + 5000 + 1100 + max D 1100` (or `d ≤ t0 + 1100 + max D 1100` when the back-off had already expired
+at the reference time).  With any `D ≤ 23900` this is inside the property's 30 s.
+
+Why it holds: the REG3 arm is unconditional (`C08_reg3_applies`), and every event that is not that REG3 — a further
+attempt included — leaves the link down with the invariant intact (`C08_aux_liveInv_step`). -/
+theorem C08_reconnect_within_30s_sys_late_answer (s : Sys F) (j : Nat) (l : FLink F) (evs : List Ev) (t0 D : Nat)
+    (hl : s.links[j]? = some l) (hd : Down l) (hinv : RejoinInv s)
+    (hidx : s.links.findIdx? (·.core.connId == l.core.connId) = some j)
+    (hmono : MonoFrom t0 evs) (hgaps : TickGaps t0 evs)
+    (hlong : ∃ t, Ev.hk t ∈ evs ∧ t ≥ l.lastAttemptMs + 5000)
+    (hans : AnsweredLate D l.core.connId s evs)
+    (hfb : l.core.connId ∉ s.failBind) (hnofb : ∀ e ∈ evs, e ≠ .failBind l.core.connId)
+    (hpend : NoPendingAtTicks s evs) :
+    ∃ pre d data post, evs = pre ++ .uplink d l.core.connId data :: post ∧
+      Codec.getPacketTypeS data = some 37378 ∧
+      (d < l.lastAttemptMs + 5000 + 1100 + max D 1100 ∨ d ≤ t0 + 1100 + max D 1100) ∧
+      ∃ l', (run s (pre ++ [.uplink d l.core.connId data])).links[j]? = some l' ∧
+        l'.core.connected = true ∧ l'.core.window = 20000 ∧ l'.core.inFlight = 0 ∧ l'.core.log = [] ∧
+        l'.queue = [] ∧ l'.core.phase = .warming 0 d :=
+  C08_aux_live_late l.core.connId j t0 D evs s l t0 t0 ⟨hl, hd, rfl, hinv, hidx, hfb⟩ hnofb hmono hgaps
+    (Or.inr (Nat.le_refl _)) hlong hans hpend
+
+/-- Executable form of `AnswerLate` / `AnsweredLate` (to check the relaxed hypothesis on literal runs). -/
+def answerLateB (cid dl : Nat) : List Ev → Bool
+  | [] => false
+  | .uplink d c data :: es =>
+    if isReg3For cid (.uplink d c data) then decide (d ≤ dl) else answerLateB cid dl es
+  | _ :: es => answerLateB cid dl es
+
+theorem C08_aux_answerLateB (cid dl : Nat) (es : List Ev) (h : answerLateB cid dl es = true) :
+    AnswerLate cid dl es := by
+  induction es with
+  | nil => simp [answerLateB] at h
+  | cons e es ih =>
+    cases e with
+    | uplink d c data =>
+      simp only [answerLateB] at h
+      simp only [AnswerLate]
+      split
+      · rename_i hc; rw [if_pos hc] at h; exact of_decide_eq_true h
+      · rename_i hc; rw [if_neg hc] at h; exact ih h
+    | hk t => exact ih (by simpa only [answerLateB] using h)
+    | client now pkt => exact ih (by simpa only [answerLateB] using h)
+    | flush now => exact ih (by simpa only [answerLateB] using h)
+    | setCfg cfg => exact ih (by simpa only [answerLateB] using h)
+    | crit d => exact ih (by simpa only [answerLateB] using h)
+    | failNext c => exact ih (by simpa only [answerLateB] using h)
+    | failBind c => exact ih (by simpa only [answerLateB] using h)
+    | syncTimeout => exact ih (by simpa only [answerLateB] using h)
+    | stamp idx weak ld ccb cct => exact ih (by simpa only [answerLateB] using h)
+
+def answeredLateB (D cid : Nat) : Sys F → List Ev → Bool
+  | _, [] => true
+  | s, e :: es =>
+    (match e with
+      | .hk t => !((step s e).2.wire.any fun p => p.1 == cid && Codec.getPacketTypeS p.2 == some 37377) ||
+          answerLateB cid (t + D) es
+      | _ => true) && answeredLateB D cid (step s e).1 es
+
+theorem C08_aux_answeredLateB (D cid : Nat) (evs : List Ev) :
+    ∀ s : Sys F, answeredLateB D cid s evs = true → AnsweredLate D cid s evs := by
+  induction evs with
+  | nil => intro s _; trivial
+  | cons e es ih =>
+    intro s h
+    simp only [answeredLateB, Bool.and_eq_true] at h
+    refine ⟨fun t he hw => ?_, ih _ h.2⟩
+    subst he
+    have h1 := h.1
+    simp only [Bool.or_eq_true, Bool.not_eq_true'] at h1
+    rcases h1 with h1 | h1
+    · obtain ⟨p, hp, hp1, hp2⟩ := hw
+      have : ((step s (.hk t)).2.wire.any fun p => p.1 == cid && Codec.getPacketTypeS p.2 == some 37377) = true :=
+        List.any_eq_true.2 ⟨p, hp, by simp [hp1, hp2]⟩
+      rw [this] at h1; cases h1
+    · exact C08_aux_answerLateB cid _ es h1
+
+/-- Executable form of "no event of the run is an uplink datagram of type REG_NGP (0x9211 = 37393)". -/
+def noNgpB (evs : List Ev) : Bool :=
+  evs.all fun e => match e with
+    | .uplink _ _ data => Codec.getPacketTypeS data != some 37393
+    | _ => true
+
+theorem C08_aux_noNgpB (evs : List Ev) (h : noNgpB evs = true) :
+    ∀ e ∈ evs, ∀ now cid data, e = .uplink now cid data → Codec.getPacketTypeS data ≠ some 37393 := by
+  intro e he now cid data heq
+  subst heq
+  have := List.all_eq_true.1 h _ he
+  simpa using this
+
+/-- Non-vacuity of the late-answer theorem on `exSys` (link 1 = `exDown`, conn id 7, last attempt at 2000): the
+attempt tick is 7900 (REG2 on the wire); the REG3 comes only at 11500 — THREE ticks later (8900, 9900, 10900 make no
+new attempt: 5000 ms back-off from 7900; keepalive answers at 6200 and 10000 keep the survivor, link 0, alive) — with
+`D = 4000`.  The old hypothesis (ii) FAILS on this run (no REG3
+before the tick at 8900); the relaxed one holds and the theorem yields the re-join at 11500
+`< 2000 + 5000 + 1100 + 4000`. -/
+def exLateRun : List Ev :=
+  [.client 6100 [0x80, 0x02, 0, 0, 0, 0, 0, 0], .uplink 6200 5 [0x90, 0x00], .syncTimeout, .hk 6900, .syncTimeout,
+   .hk 7900, .uplink 7950 7 [0x90, 0x00], .syncTimeout, .hk 8900, .flush 8910, .syncTimeout, .hk 9900,
+   .uplink 10000 5 [0x90, 0x00], .syncTimeout, .hk 10900, .uplink 11500 7 [0x92, 0x02], .syncTimeout, .hk 11900]
+
+example :
+    ∃ pre d data post, exLateRun = pre ++ .uplink d 7 data :: post ∧
+      Codec.getPacketTypeS data = some 37378 ∧
+      (d < 2000 + 5000 + 1100 + max 4000 1100 ∨ d ≤ 6000 + 1100 + max 4000 1100) ∧
+      ∃ l', (run exSys (pre ++ [.uplink d 7 data])).links[1]? = some l' ∧
+        l'.core.connected = true ∧ l'.core.window = 20000 ∧ l'.core.inFlight = 0 ∧ l'.core.log = [] ∧
+        l'.queue = [] ∧ l'.core.phase = .warming 0 d :=
+  C08_reconnect_within_30s_sys_late_answer exSys 1 exDown exLateRun 6000 4000 rfl ⟨rfl, by decide, rfl⟩
+    C08_aux_exSys_inv (by decide) (by simp [exLateRun, MonoFrom, evClock]) (by simp [exLateRun, TickGaps])
+    ⟨7900, by simp [exLateRun], by decide⟩
+    (C08_aux_answeredLateB 4000 7 exLateRun exSys (by decide +kernel))
+    (by decide) (by simp [exLateRun])
+    (C08_aux_noPending_of_idle exLateRun exSys ⟨rfl, rfl, by decide⟩ (C08_aux_noNgpB exLateRun (by decide)))
+
+
+/-- … the old hypothesis (ii) really fails on that run, and the link is connected exactly from the REG3 at 11500
+(prefix of 16 events; the survivor's window moves by time-based recovery meanwhile) on. -/
+example :
+    answeredB 7 exSys exLateRun = false ∧ answeredLateB 4000 7 exSys exLateRun = true ∧
+    ((run exSys (exLateRun.take 16)).links.map fun l => (l.core.connected, l.core.window, l.lastAttemptMs)) =
+      [(true, 23180, 0), (true, 20000, 7900)] ∧
+    ((run exSys (exLateRun.take 15)).links.map fun l => (l.core.connected, l.lastAttemptMs)) =
+      [(true, 0), (false, 7900)] := by
+  decide +kernel
+
+/-! ## 12. Audit round 2 (b): the FIRST registration of a link
+
+`C08_reconnect_within_30s_sys` is about a link that WAS established (`Down`: `connection_established_ms ≠ 0`).  A
+link that has never been registered — black-holed from start-up, repaired later, in a group that registered over
+its other links — follows a different cadence (`should_attempt_reconnect`, first branch): an attempt is made when
+the start-up grace has run out (`now > startup_grace_deadline_ms`) and the last attempt is at least 1000 ms old;
+each attempt whose socket re-creation succeeds re-arms the 5000 ms grace (`reset_startup_grace`), so in practice
+the attempts of a silent link are `5000 ms + one tick` apart.  The attempt re-sends REG2 with the group id exactly
+like a re-join; the REG3 answer connects the link (`C08_first_join`). -/
+
+/-- A never-registered link of a registered group: not connected, `connection_established_ms = 0`, `Registering`,
+clean accounting (a `new_registering` link has it; every reconnect attempt and every tear-down restores it:
+`C08_teardown_is_clean`). -/
+def Fresh (l : FLink F) : Prop :=
+  l.core.connected = false ∧ l.established = 0 ∧ l.core.phase = .registering ∧ Clean l
+
+/-- **The cadence of a never-registered link**: a tick at `t` attempts it (timed out AND attempt due) iff the
+start-up grace is over and the last attempt, if any, is at least 1000 ms old. -/
+theorem C08_first_registration_cadence (l : FLink F) (h : Fresh l) (t : Nat) :
+    (l.isTimedOut t = true ∧ l.shouldAttemptReconnect t = true) ↔
+      (t > l.graceDeadline ∧ (l.lastAttemptMs = 0 ∨ t ≥ l.lastAttemptMs + 1000)) := by
+  obtain ⟨h1, h2, -, -⟩ := h
+  have hI := Lit.INITIAL_RETRY_MS_eq
+  rw [C08_timed_out_disconnected l t h1]
+  constructor
+  · rintro ⟨-, hs⟩
+    rcases shouldAttempt_true l t hs with ⟨-, hg, ha⟩ | ⟨he, -⟩
+    · exact ⟨hg, ha.imp id (by omega)⟩
+    · exact absurd h2 he
+  · rintro ⟨hg, ha⟩
+    refine ⟨fun hh => by omega, ?_⟩
+    unfold FLink.shouldAttemptReconnect
+    rw [if_pos (by simpa using h2), if_neg (by omega)]
+    split
+    · rfl
+    · rename_i hl
+      have : l.lastAttemptMs ≠ 0 := by simpa using hl
+      exact decide_eq_true (by omega)
+
+/-- After an attempt at `a` whose socket re-creation succeeded, the next one comes strictly after `a + 5000`. -/
+example : Fresh (withSent (reconnectLink exLink 6000) none) ∧
+    (withSent (reconnectLink exLink 6000) none).graceDeadline = 11000 ∧
+    (withSent (reconnectLink exLink 6000) none).shouldAttemptReconnect 11000 = false ∧
+    (withSent (reconnectLink exLink 6000) none).shouldAttemptReconnect 11001 = true ∧
+    exLink.shouldAttemptReconnect 5000 = false ∧ exLink.shouldAttemptReconnect 5001 = true := by
+  refine ⟨⟨rfl, rfl, rfl, (C08_clean_def _).2 (by decide)⟩, by decide, by decide, by decide, by decide, by decide⟩
+
+/-- What the walk maintains about a never-registered link `j` (conn id `cid`) until it joins: the group is
+registered (`has_connected`) and its manager at rest (`RegIdle`: no REG2 wait, no REG1 target, probing over). -/
+structure FreshInv (cid j : Nat) (s : Sys F) (l : FLink F) : Prop where
+  link : s.links[j]? = some l
+  fresh : Fresh l
+  id : l.core.connId = cid
+  idx : s.links.findIdx? (·.core.connId == cid) = some j
+  nofb : cid ∉ s.failBind
+  idle : RegIdle s.reg
+  hc : s.reg.hasConnected = true
+
+/-- One event from a `FreshInv` state, unless it injects a bind failure for `cid` or is a REG_NGP datagram: link `j`
+is still fresh with the invariant intact — attempt stamp unchanged and grace deadline unchanged or zeroed (a
+tear-down), or the event was a tick that attempted it (stamp = tick, grace = tick + 5000) —, or the event was a REG3
+for `cid`, which leaves `reg3Link`. -/
+theorem C08_aux_freshInv_step (cid j : Nat) (s : Sys F) (l : FLink F) (e : Ev) (h : FreshInv cid j s l)
+    (he : e ≠ .failBind cid)
+    (hngp : ∀ now c data, e = .uplink now c data → Codec.getPacketTypeS data ≠ some 37393) :
+    ∃ l1, (step s e).1.links[j]? = some l1 ∧
+      ((FreshInv cid j (step s e).1 l1 ∧
+          ((l1.lastAttemptMs = l.lastAttemptMs ∧ (l1.graceDeadline = l.graceDeadline ∨ l1.graceDeadline = 0) ∧
+              ∀ now, e = .hk now → ¬ (l.isTimedOut now = true ∧ l.shouldAttemptReconnect now = true)) ∨
+           (∃ now, e = .hk now ∧ l.isTimedOut now = true ∧ l.shouldAttemptReconnect now = true ∧
+              l1.lastAttemptMs = now ∧ l1.graceDeadline = now + 5000))) ∨
+       (∃ now data, e = .uplink now cid data ∧ Codec.getPacketTypeS data = some 37378 ∧ l1 = reg3Link l now)) := by
+  have hnofb : cid ∉ (step s e).1.failBind := by
+    intro hm
+    rcases step_failBind_mem s e cid hm with h1 | h1
+    · exact h.nofb h1
+    · exact he h1
+  have hidx : (step s e).1.links.findIdx? (·.core.connId == cid) = some j := by
+    rw [step_findIdx]; exact h.idx
+  have hidle : RegIdle (step s e).1.reg := step_reg_idle s e h.idle hngp
+  have hhc : (step s e).1.reg.hasConnected = true := (step_link s e).2.2 h.hc
+  obtain ⟨d1, d2, d3, d4⟩ := h.fresh
+  by_cases htick : ∃ now, e = .hk now
+  · -- a tick: exact, by `hkDue`
+    obtain ⟨now, rfl⟩ := htick
+    have hdue := Audit2B.hkDue_idle s now j l h.idle
+    cases hd : Audit2B.hkDue s now j l with
+    | true =>
+      obtain ⟨hto, hsa⟩ := hdue.1 hd
+      obtain ⟨t, ht⟩ := Audit2B.hk_due_link s now j l h.link hd
+      have hff : hkFails s now j l.core.connId = false := hkFails_false s now j _ (by rw [h.id]; exact h.nofb)
+      rw [hff] at ht
+      refine ⟨_, ht, Or.inl ⟨?_, Or.inr ⟨now, rfl, hto, hsa, ?_, ?_⟩⟩⟩
+      · obtain ⟨-, -, f3, -, f5, f6, -, -, -, f10⟩ := reconnectLink_fields l now
+        exact ⟨ht, ⟨f10.connected, f3.trans d2, f6, ⟨f10.window, f10.log, f10.queue, f10.inFlight, f10.connected⟩⟩,
+          f5.trans h.id, hidx, hnofb, hidle, hhc⟩
+      · exact (reconnectLink_fields l now).1
+      · exact (reconnectLink_fields l now).2.2.2.1
+    | false =>
+      obtain ⟨l1, hl1, hev, hg⟩ := Audit2B.hk_not_due_grace s now j l h.link hd
+      rw [Audit2B.graceFix_idle s now j l h.idle] at hg
+      refine ⟨l1, hl1, Or.inl ⟨?_, Or.inl ⟨hev.lastAttempt, Or.inl hg, ?_⟩⟩⟩
+      · exact ⟨hl1, ⟨hev.connected.trans d1, hev.established.trans d2, hev.phaseReg.mpr d3,
+          hev.clean h.hc d3 d4⟩, hev.connId.trans h.id, hidx, hnofb, hidle, hhc⟩
+      · intro now' he' hh
+        cases he'
+        rw [hdue.2 hh] at hd
+        cases hd
+  · -- not a tick: `LinkStep` for the flags, `step_grace_nonhk` for the grace deadline
+    have hnt : ∀ now, e ≠ .hk now := fun now hh => htick ⟨now, hh⟩
+    obtain ⟨l1, hl1, hs⟩ := (step_link s e).1 j l h.link
+    obtain ⟨l1', hl1', hg⟩ := Audit2B.step_grace_nonhk s e j l h.link hnt
+    rw [hl1] at hl1'
+    cases hl1'
+    refine ⟨l1, hl1, ?_⟩
+    have mk : l1.core.connected = false → l1.established = 0 → l1.core.phase = .registering → Clean l1 →
+        l1.core.connId = l.core.connId → FreshInv cid j (step s e).1 l1 :=
+      fun a b c d f => ⟨hl1, ⟨a, b, c, d⟩, f.trans h.id, hidx, hnofb, hidle, hhc⟩
+    have nohk : ∀ now, e = .hk now → ¬ (l.isTimedOut now = true ∧ l.shouldAttemptReconnect now = true) :=
+      fun now hh => absurd hh (hnt now)
+    cases hs with
+    | evolves cto _ hev =>
+      exact Or.inl ⟨mk (hev.connected.trans d1) (hev.established.trans d2) (hev.phaseReg.mpr d3)
+        (hev.clean h.hc d3 d4) hev.connId, Or.inl ⟨hev.lastAttempt, hg, nohk⟩⟩
+    | sendFail now pkt _ ht _ =>
+      exact Or.inl ⟨mk ht.clean.connected (ht.established.trans d2) ht.phase ht.clean ht.connId,
+        Or.inl ⟨ht.lastAttempt, hg, nohk⟩⟩
+    | reg3 now c data hev hidx' hty hl3 _ =>
+      right
+      have hc : c = cid := by
+        have := findIdx_hit s.links c j l hidx' h.link
+        rw [← this]; exact h.id
+      subst hc
+      exact ⟨now, data, hev, (regEvent_of_type s.reg j data now).2.mp hty, hl3⟩
+    | regErr now c data _ _ _ hlE =>
+      subst hlE
+      exact Or.inl ⟨mk rfl d2 rfl (clean_markForRecovery l) rfl, Or.inl ⟨rfl, hg, nohk⟩⟩
+    | attempt now hev => exact absurd hev (hnt now)
+    | attemptFailed now hev => exact absurd hev (hnt now)
+
+/-- A REG3 for `cid` processed in a `FreshInv` state joins link `j`: connected, window 20000, nothing in flight,
+logged or queued, `Warming{0, d}`, first-establishment stamp `d`. -/
+theorem C08_aux_first_join (cid j : Nat) (s : Sys F) (l : FLink F) (h : FreshInv cid j s l) (d : Nat)
+    (data : Sys.Bytes) (hty : Codec.getPacketTypeS data = some 37378) :
+    ∃ l', (step s (.uplink d cid data)).1.links[j]? = some l' ∧
+      l'.core.connected = true ∧ l'.core.window = 20000 ∧ l'.core.inFlight = 0 ∧ l'.core.log = [] ∧
+      l'.queue = [] ∧ l'.core.phase = .warming 0 d ∧ l'.established = d := by
+  obtain ⟨-, d2, -, hcl⟩ := h.fresh
+  obtain ⟨h1, -⟩ := C08_reg3_applies s d cid data j l h.link h.idx (C08_aux_type_nonempty data _ hty) hty
+  obtain ⟨r1, r2, r3, r4, r5, -, -, -, r9, r10⟩ := C08_reg3_link l d
+  exact ⟨_, h1, r1, r10.trans hcl.window, r3, r4, r5, r2, by rw [r9, if_pos d2]⟩
+
+/-- The answer phase for a never-registered link (late form): from a `FreshInv` state, the first REG3 for `cid`
+anywhere later in the run joins link `j`. -/
+theorem C08_aux_first_answer (cid j dl : Nat) (evs : List Ev) :
+    ∀ (s : Sys F) (l : FLink F), FreshInv cid j s l → (∀ e ∈ evs, e ≠ .failBind cid) →
+      (∀ e ∈ evs, ∀ now c data, e = .uplink now c data → Codec.getPacketTypeS data ≠ some 37393) →
+      AnswerLate cid dl evs →
+      ∃ pre d data post, evs = pre ++ .uplink d cid data :: post ∧
+        Codec.getPacketTypeS data = some 37378 ∧ d ≤ dl ∧
+        ∃ l', (run s (pre ++ [.uplink d cid data])).links[j]? = some l' ∧
+          l'.core.connected = true ∧ l'.core.window = 20000 ∧ l'.core.inFlight = 0 ∧ l'.core.log = [] ∧
+          l'.queue = [] ∧ l'.core.phase = .warming 0 d ∧ l'.established = d := by
+  induction evs with
+  | nil => intro s l _ _ _ ha; exact absurd ha (by simp [AnswerLate])
+  | cons e es ih =>
+    intro s l hinv hne hng ha
+    have hne' : ∀ e' ∈ es, e' ≠ .failBind cid := fun e' he' => hne e' (List.mem_cons_of_mem _ he')
+    have hng' : ∀ e' ∈ es, ∀ now c data, e' = .uplink now c data → Codec.getPacketTypeS data ≠ some 37393 :=
+      fun e' he' => hng e' (List.mem_cons_of_mem _ he')
+    by_cases hr : isReg3For cid e = true
+    · cases e with
+      | uplink d c data =>
+        simp only [isReg3For, Bool.and_eq_true, beq_iff_eq] at hr
+        obtain ⟨hc, hty⟩ := hr
+        subst hc
+        have hd : d ≤ dl := by
+          have : isReg3For c (.uplink d c data) = true := by simp [isReg3For, hty]
+          simp only [AnswerLate, this, if_true] at ha
+          exact ha
+        obtain ⟨l', hl', hp⟩ := C08_aux_first_join c j s l hinv d data hty
+        exact ⟨[], d, data, es, rfl, hty, hd, l', hl', hp⟩
+      | _ => simp [isReg3For] at hr
+    · have hr' : isReg3For cid e = false := by simpa using hr
+      have ha' : AnswerLate cid dl es := by
+        cases e with
+        | hk t => simpa only [AnswerLate] using ha
+        | uplink d c data => simpa only [AnswerLate, hr', Bool.false_eq_true, if_false] using ha
+        | client now pkt => simpa only [AnswerLate] using ha
+        | flush now => simpa only [AnswerLate] using ha
+        | setCfg cfg => simpa only [AnswerLate] using ha
+        | crit d => simpa only [AnswerLate] using ha
+        | failNext c => simpa only [AnswerLate] using ha
+        | failBind c => simpa only [AnswerLate] using ha
+        | syncTimeout => simpa only [AnswerLate] using ha
+        | stamp idx weak ld ccb cct => simpa only [AnswerLate] using ha
+      obtain ⟨l1, hl1, hc⟩ := C08_aux_freshInv_step cid j s l e hinv (hne e (List.mem_cons_self))
+        (hng e List.mem_cons_self)
+      rcases hc with ⟨hinv1, -⟩ | ⟨now, data, he, hty, -⟩
+      · obtain ⟨pre, d, data, post, e1, e2, e3, l', hl', hp⟩ := ih _ l1 hinv1 hne' hng' ha'
+        exact ⟨e :: pre, d, data, post, by rw [e1]; rfl, e2, e3, l', hl', hp⟩
+      · rw [he] at hr'
+        simp [isReg3For, hty] at hr'
+
+/-- The walk for a never-registered link.  `B` bounds the time at which an attempt becomes due: the grace deadline is
+below `B` and the last attempt, if any, is at least 1000 ms before `B` — both stay so along the walk (the grace
+deadline is only ever zeroed; the stamp moves only by an attempt). -/
+theorem C08_aux_first_live (cid j T0 D B : Nat) (evs : List Ev) :
+    ∀ (s : Sys F) (l : FLink F) (pt lo : Nat), FreshInv cid j s l → (∀ e ∈ evs, e ≠ .failBind cid) →
+      (∀ e ∈ evs, ∀ now c data, e = .uplink now c data → Codec.getPacketTypeS data ≠ some 37393) →
+      MonoFrom lo evs → TickGaps pt evs → (pt < B ∨ pt ≤ T0) →
+      l.graceDeadline < B → (l.lastAttemptMs = 0 ∨ l.lastAttemptMs + 1000 ≤ B) →
+      (∃ t, Ev.hk t ∈ evs ∧ t ≥ B) →
+      AnsweredLate D cid s evs →
+      ∃ pre d data post, evs = pre ++ .uplink d cid data :: post ∧
+        Codec.getPacketTypeS data = some 37378 ∧
+        (d < B + 1100 + max D 1100 ∨ d ≤ T0 + 1100 + max D 1100) ∧
+        ∃ l', (run s (pre ++ [.uplink d cid data])).links[j]? = some l' ∧
+          l'.core.connected = true ∧ l'.core.window = 20000 ∧ l'.core.inFlight = 0 ∧ l'.core.log = [] ∧
+          l'.queue = [] ∧ l'.core.phase = .warming 0 d ∧ l'.established = d := by
+  induction evs with
+  | nil => intro s l pt lo _ _ _ _ _ _ _ _ hex; obtain ⟨t, ht, -⟩ := hex; cases ht
+  | cons e es ih =>
+    intro s l pt lo hinv hne hng hm hg hpt hG hA hex hans
+    have hne' : ∀ e' ∈ es, e' ≠ .failBind cid := fun e' he' => hne e' (List.mem_cons_of_mem _ he')
+    have hng' : ∀ e' ∈ es, ∀ now c data, e' = .uplink now c data → Codec.getPacketTypeS data ≠ some 37393 :=
+      fun e' he' => hng e' (List.mem_cons_of_mem _ he')
+    obtain ⟨hans0, hans'⟩ := hans
+    obtain ⟨l1, hl1, hc⟩ := C08_aux_freshInv_step cid j s l e hinv (hne e (List.mem_cons_self))
+      (hng e List.mem_cons_self)
+    have hex_tail : (∀ t, e = .hk t → t < B) → ∃ t, Ev.hk t ∈ es ∧ t ≥ B := by
+      intro hnot
+      obtain ⟨t, ht, hge⟩ := hex
+      rcases List.mem_cons.1 ht with h0 | h0
+      · have := hnot t h0.symm; omega
+      · exact ⟨t, h0, hge⟩
+    by_cases htick : ∃ t, e = .hk t
+    · obtain ⟨t, rfl⟩ := htick
+      simp only [MonoFrom, evClock, TickGaps] at hm hg
+      rcases hc with ⟨hinv1, ⟨hla, hgr, hnot⟩ | ⟨now, he, hto, hsa, -, -⟩⟩ | ⟨now, data, he, -⟩
+      · -- not due: `t < B`
+        have hnd := hnot t rfl
+        rw [C08_first_registration_cadence l hinv.fresh t] at hnd
+        have hlt : t < B := by
+          by_cases h1 : t > l.graceDeadline
+          · have : ¬ (l.lastAttemptMs = 0 ∨ t ≥ l.lastAttemptMs + 1000) := fun h2 => hnd ⟨h1, h2⟩
+            omega
+          · omega
+        obtain ⟨pre, d, data, post, e1, e2, e3, hp⟩ :=
+          ih _ l1 t t hinv1 hne' hng' hm.2 hg.2 (Or.inl hlt) (by rcases hgr with h | h <;> omega)
+            (by rw [hla]; exact hA) (hex_tail (fun t' ht' => by cases ht'; exact hlt)) hans'
+        exact ⟨.hk t :: pre, d, data, post, by rw [e1]; rfl, e2, e3, hp⟩
+      · -- the attempt tick: REG2 on the wire, answered
+        cases he
+        have hd : Audit2B.hkDue s t j l = true := (Audit2B.hkDue_idle s t j l hinv.idle).2 ⟨hto, hsa⟩
+        have hwire : (cid, Codec.createReg2 s.reg.id) ∈ (step s (.hk t)).2.wire := by
+          have := Audit2B.hk_wire_reg2_due s t j l hinv.link hinv.idle.1 hd
+          rw [hinv.id] at this; exact this
+        have hab : AnswerLate cid (t + D) es := hans0 t rfl ⟨_, hwire, rfl, C08_aux_reg2_type _⟩
+        obtain ⟨pre, d, data, post, e1, e2, e3, hp⟩ :=
+          C08_aux_first_answer cid j (t + D) es _ l1 hinv1 hne' hng' hab
+        refine ⟨.hk t :: pre, d, data, post, by rw [e1]; rfl, e2, ?_, hp⟩
+        omega
+      · cases he
+    · have hnt : ∀ t, e ≠ .hk t := fun t h => htick ⟨t, h⟩
+      have hex' := hex_tail (fun t h => absurd h (hnt t))
+      have hg' : TickGaps pt es := by
+        cases e with
+        | hk t => exact absurd rfl (hnt t)
+        | _ => simpa only [TickGaps] using hg
+      rcases hc with ⟨hinv1, ⟨hla, hgr, -⟩ | ⟨now, he, -⟩⟩ | ⟨now, data, he, hty, -⟩
+      · have hm' : ∃ lo', MonoFrom lo' es := by
+          cases e with
+          | hk t => exact absurd rfl (hnt t)
+          | client now pkt => simp only [MonoFrom, evClock] at hm; exact ⟨_, hm.2⟩
+          | uplink now c data => simp only [MonoFrom, evClock] at hm; exact ⟨_, hm.2⟩
+          | flush now => simp only [MonoFrom, evClock] at hm; exact ⟨_, hm.2⟩
+          | setCfg cfg => simp only [MonoFrom, evClock] at hm; exact ⟨_, hm⟩
+          | crit x => simp only [MonoFrom, evClock] at hm; exact ⟨_, hm⟩
+          | failNext c => simp only [MonoFrom, evClock] at hm; exact ⟨_, hm⟩
+          | failBind c => simp only [MonoFrom, evClock] at hm; exact ⟨_, hm⟩
+          | syncTimeout => simp only [MonoFrom, evClock] at hm; exact ⟨_, hm⟩
+          | stamp idx weak ld ccb cct => simp only [MonoFrom, evClock] at hm; exact ⟨_, hm⟩
+        obtain ⟨lo', hm'⟩ := hm'
+        obtain ⟨pre, d, data, post, e1, e2, e3, hp⟩ :=
+          ih _ l1 pt lo' hinv1 hne' hng' hm' hg' hpt (by rcases hgr with h | h <;> omega)
+            (by rw [hla]; exact hA) hex' hans'
+        exact ⟨e :: pre, d, data, post, by rw [e1]; rfl, e2, e3, hp⟩
+      · exact absurd he (hnt now)
+      · -- a REG3 for `cid` before the attempt (answering an earlier REG2): the link joins here
+        subst he
+        simp only [MonoFrom, evClock] at hm
+        obtain ⟨t', ht', -⟩ := hex'
+        have hd := C08_aux_clock_before_tick now pt es hm.2 hg' ⟨t', ht'⟩
+        obtain ⟨l', hl', hp⟩ := C08_aux_first_join cid j s l hinv now data hty
+        refine ⟨[], now, data, es, rfl, hty, ?_, l', hl', hp⟩
+        omega
+
+/-- **First registration (run level).**  State `s` of the shell, link `j` with record `l`:
+* `l` is `Fresh` — never established, not connected, `Registering`, clean accounting — in a REGISTERED group
+  (`has_connected`) whose registration manager is at rest (`RegIdle`: no uplink awaiting REG2, no REG1 target, probing
+  over); uplink datagrams for its conn id are dispatched to index `j`;
+* `evs` is ANY run of the shell in which (i) event clocks never go back, housekeeping ticks are at most 1100 ms apart
+  (first tick at most 1100 ms after the reference time `t0`) and go on until the attempt is due — some tick at or
+  after `B := max (grace_deadline + 1) (last_attempt + 1000)` (`last_attempt + 1000` only if there was an attempt); (ii)
+  every tick whose wire output contains a REG2 for this conn id is followed, at any later point of the run, by a REG3
+  for it processed within `D` ms (the relaxed form of section 11); (iii) no bind failure is injected for this conn id;
+  (iv) no REG_NGP datagram (the receiver has not forgotten the group).  Everything else is arbitrary and interleaved:
+  client datagrams, datagrams of every other type on every link including `j` (a REG_ERR on `j` only zeroes its grace
+  deadline and makes the attempt due EARLIER), flush ticks, configuration changes, stamps, faults on other links.
+
+Then the run has a prefix ending in a REG3 for this conn id, processed at clock `d`, after which link `j` is
+connected with window 20000, in-flight 0, empty packet log and batch queue, phase `Warming{0, d}` and
+first-establishment stamp `d`; and `d < B + 1100 + max D 1100` — or `d ≤ t0 + 1100 + max D 1100` when the attempt was
+already due at the reference time.  For a link whose last attempt (at `a`, socket re-created) re-armed the grace,
+`B = a + 5001`: connected less than `5001 + 1100 + 1100` ms after that attempt when the receiver answers within a
+tick — `C08_first_registration_live_sys_bound`. -/
+theorem C08_first_registration_live_sys (s : Sys F) (j : Nat) (l : FLink F) (evs : List Ev) (t0 D : Nat)
+    (hl : s.links[j]? = some l) (hf : Fresh l) (hhc : s.reg.hasConnected = true) (hidle : RegIdle s.reg)
+    (hidx : s.links.findIdx? (·.core.connId == l.core.connId) = some j)
+    (hmono : MonoFrom t0 evs) (hgaps : TickGaps t0 evs)
+    (hlong : ∃ t, Ev.hk t ∈ evs ∧ t > l.graceDeadline ∧ (l.lastAttemptMs = 0 ∨ t ≥ l.lastAttemptMs + 1000))
+    (hans : AnsweredLate D l.core.connId s evs)
+    (hfb : l.core.connId ∉ s.failBind) (hnofb : ∀ e ∈ evs, e ≠ .failBind l.core.connId)
+    (hngp : ∀ e ∈ evs, ∀ now cid data, e = .uplink now cid data → Codec.getPacketTypeS data ≠ some 37393) :
+    ∃ pre d data post, evs = pre ++ .uplink d l.core.connId data :: post ∧
+      Codec.getPacketTypeS data = some 37378 ∧
+      (d < max (l.graceDeadline + 1) (if l.lastAttemptMs = 0 then 0 else l.lastAttemptMs + 1000) + 1100 + max D 1100 ∨
+        d ≤ t0 + 1100 + max D 1100) ∧
+      ∃ l', (run s (pre ++ [.uplink d l.core.connId data])).links[j]? = some l' ∧
+        l'.core.connected = true ∧ l'.core.window = 20000 ∧ l'.core.inFlight = 0 ∧ l'.core.log = [] ∧
+        l'.queue = [] ∧ l'.core.phase = .warming 0 d ∧ l'.established = d := by
+  obtain ⟨t, ht, hg, ha⟩ := hlong
+  refine C08_aux_first_live l.core.connId j t0 D
+    (max (l.graceDeadline + 1) (if l.lastAttemptMs = 0 then 0 else l.lastAttemptMs + 1000)) evs s l t0 t0
+    ⟨hl, hf, rfl, hidx, hfb, hidle, hhc⟩ hnofb hngp hmono hgaps (Or.inr (Nat.le_refl _)) (by omega) ?_
+    ⟨t, ht, ?_⟩ hans
+  · by_cases h0 : l.lastAttemptMs = 0
+    · exact Or.inl h0
+    · right; rw [if_neg h0]; omega
+  · by_cases h0 : l.lastAttemptMs = 0
+    · rw [if_pos h0]; omega
+    · rw [if_neg h0]
+      rcases ha with h | h
+      · exact absurd h h0
+      · omega
+
+/-- The bound in plain numbers for the common case: the link's last attempt, at `a`, re-armed the grace
+(`grace_deadline = a + 5000`, as every attempt with a successful socket re-creation leaves it), the watch starts before
+that grace is over, and the receiver answers within a tick (`D = 1100`): connected less than
+`5000 + 1 + 1100 + 1100` ms after that attempt — well inside the property's 30 s. -/
+theorem C08_first_registration_live_sys_bound (s : Sys F) (j : Nat) (l : FLink F) (evs : List Ev) (t0 : Nat)
+    (hl : s.links[j]? = some l) (hf : Fresh l) (hhc : s.reg.hasConnected = true) (hidle : RegIdle s.reg)
+    (hidx : s.links.findIdx? (·.core.connId == l.core.connId) = some j)
+    (hgrace : l.graceDeadline = l.lastAttemptMs + 5000) (ht0 : t0 ≤ l.lastAttemptMs + 5000)
+    (hmono : MonoFrom t0 evs) (hgaps : TickGaps t0 evs)
+    (hlong : ∃ t, Ev.hk t ∈ evs ∧ t > l.lastAttemptMs + 5000)
+    (hans : AnsweredLate 1100 l.core.connId s evs)
+    (hfb : l.core.connId ∉ s.failBind) (hnofb : ∀ e ∈ evs, e ≠ .failBind l.core.connId)
+    (hngp : ∀ e ∈ evs, ∀ now cid data, e = .uplink now cid data → Codec.getPacketTypeS data ≠ some 37393) :
+    ∃ pre d data post, evs = pre ++ .uplink d l.core.connId data :: post ∧
+      d < l.lastAttemptMs + 5000 + 1 + 1100 + 1100 ∧ d < l.lastAttemptMs + 30000 ∧
+      ∃ l', (run s (pre ++ [.uplink d l.core.connId data])).links[j]? = some l' ∧
+        l'.core.connected = true ∧ l'.core.window = 20000 ∧ l'.core.inFlight = 0 ∧ l'.core.log = [] ∧
+        l'.queue = [] ∧ l'.core.phase = .warming 0 d ∧ l'.established = d := by
+  obtain ⟨t, ht, hgt⟩ := hlong
+  obtain ⟨pre, d, data, post, e1, -, e3, hp⟩ :=
+    C08_first_registration_live_sys s j l evs t0 1100 hl hf hhc hidle hidx hmono hgaps
+      ⟨t, ht, by omega, Or.inr (by omega)⟩ hans hfb hnofb hngp
+  refine ⟨pre, d, data, post, e1, ?_, ?_, hp⟩
+  · rw [hgrace] at e3
+    split at e3 <;> omega
+  · rw [hgrace] at e3
+    split at e3 <;> omega
+
+/-- Non-vacuity of the first-registration theorem: a registered group of the live link (conn id 5) and a NEVER
+registered link (conn id 7, `new_registering` at time 0: grace until 5000, no attempt yet).  Reference time 4000; a
+keepalive answer on the survivor, the tick at 4900 (grace not over: no attempt), a client datagram, the tick at 5900
+(due: attempt, REG2 with the group id on link 7's wire), a straggler on link 7 itself, the REG3 at 6000, one more tick. -/
+def exFreshSys : Sys Int :=
+  { links := [exLive, exLink],
+    reg := { (Reg.Reg.new [1] [2]) with hasConnected := true, probing := .complete, active := 1 } }
+
+def exFreshRun : List Ev :=
+  [.uplink 4500 5 [0x90, 0x00], .syncTimeout, .hk 4900, .client 5000 [0x80, 0x02, 0, 0, 0, 0, 0, 0], .syncTimeout,
+   .hk 5900, .uplink 5950 7 [0x90, 0x00], .uplink 6000 7 [0x92, 0x02], .syncTimeout, .hk 6900]
+
+example :
+    ∃ pre d data post, exFreshRun = pre ++ .uplink d 7 data :: post ∧
+      Codec.getPacketTypeS data = some 37378 ∧
+      (d < max (5000 + 1) 0 + 1100 + max 1100 1100 ∨ d ≤ 4000 + 1100 + max 1100 1100) ∧
+      ∃ l', (run exFreshSys (pre ++ [.uplink d 7 data])).links[1]? = some l' ∧
+        l'.core.connected = true ∧ l'.core.window = 20000 ∧ l'.core.inFlight = 0 ∧ l'.core.log = [] ∧
+        l'.queue = [] ∧ l'.core.phase = .warming 0 d ∧ l'.established = d :=
+  C08_first_registration_live_sys exFreshSys 1 exLink exFreshRun 4000 1100 rfl
+    ⟨rfl, rfl, rfl, (C08_clean_def _).2 (by decide)⟩ rfl ⟨rfl, rfl, by decide⟩ (by decide)
+    (by simp [exFreshRun, MonoFrom, evClock]) (by simp [exFreshRun, TickGaps])
+    ⟨5900, by simp [exFreshRun], by decide, Or.inl rfl⟩
+    (C08_aux_answeredLateB 1100 7 exFreshRun exFreshSys (by decide +kernel))
+    (by decide) (by simp [exFreshRun]) (C08_aux_noNgpB exFreshRun (by decide))
+
+
+/-- … and what that run does: no attempt at 4900 (stamp 0, grace 5000), the attempt at 5900 (stamp 5900, grace
+re-armed to 10900, REG2 on the wire for conn id 7), connected from the REG3 at 6000 on with the first-establishment
+stamp 6000. -/
+example :
+    ((run exFreshSys (exFreshRun.take 3)).links.map fun l => (l.core.connected, l.lastAttemptMs, l.graceDeadline)) =
+      [(true, 0, 0), (false, 0, 5000)] ∧
+    ((run exFreshSys (exFreshRun.take 6)).links.map fun l => (l.core.connected, l.lastAttemptMs, l.graceDeadline)) =
+      [(true, 0, 0), (false, 5900, 10900)] ∧
+    (7, Codec.createReg2 [1]) ∈ (step (run exFreshSys (exFreshRun.take 5)) (.hk 5900)).2.wire ∧
+    ((run exFreshSys (exFreshRun.take 8)).links.map fun l => (l.core.connected, l.core.window, l.established)) =
+      [(true, 23060, 50), (true, 20000, 6000)] := by
+  decide +kernel
+
+/-! ## 13. Audit round 2 (c): the re-grouping chain (ALL links down, the receiver forgot the group)
+
+When no link is connected and the receiver has dropped the group, a REG2 re-send is answered by REG_NGP; the sender
+answers that AT ONCE with REG1 (`reg1_if_ngp_immediate`), the receiver creates a new group and answers REG2 carrying
+the new 256-byte id, the next housekeeping tick broadcasts REG2 with the new id on EVERY link, and the REG3 answers
+connect the links.  `C08_regroup_chain_sys_partial` proves the whole chain on runs of the shape
+
+    tick T1 · bystanders · REG_NGP · bystanders · REG2 · bystanders · tick T2 · bystanders · REG3
+
+where a *bystander* (`Audit2B.bystander`) is any event that is not a tick, not a registration datagram and not a
+fault injection: client datagrams, flush ticks, keepalive / ACK / NAK / data datagrams on any link, configuration
+changes, critical windows, verdict stamps, `sync_conn_timeout`. -/
+
+/-- `bystander`, spelled out (definition check): ticks, fault injections and uplink datagrams of the four
+registration types — REG_NGP 0x9211, REG2 0x9201, REG3 0x9202, REG_ERR 0x9210 — are NOT bystanders; everything else
+is. -/
+theorem C08_bystander_def (e : Ev) :
+    Audit2B.bystander e = true ↔
+      ((∀ t, e ≠ .hk t) ∧ (∀ c, e ≠ .failNext c) ∧ (∀ c, e ≠ .failBind c) ∧
+       ∀ now c data t, e = .uplink now c data → Codec.getPacketTypeS data = some t →
+         t ≠ 37393 ∧ t ≠ 37377 ∧ t ≠ 37378 ∧ t ≠ 37392) := by
+  cases e with
+  | hk t => simp [Audit2B.bystander]
+  | failNext c => simp [Audit2B.bystander]
+  | failBind c => simp [Audit2B.bystander]
+  | uplink now c data =>
+    simp only [Audit2B.bystander, Audit2B.isRegType]
+    cases ht : Codec.getPacketTypeS data with
+    | none =>
+      constructor
+      · intro _
+        refine ⟨fun t h => (by cases h), fun c h => (by cases h), fun c h => (by cases h), ?_⟩
+        intro now' c' data' t' h ht'
+        cases h
+        rw [ht] at ht'; cases ht'
+      · intro _; rfl
+    | some t =>
+      simp only [Bool.not_eq_true', Bool.or_eq_false_iff, beq_eq_false_iff_ne, ne_eq, reduceCtorEq, not_false_eq_true,
+        implies_true, true_and, Ev.uplink.injEq, and_imp]
+      constructor
+      · rintro ⟨⟨⟨h1, h2⟩, h3⟩, h4⟩ now' c' data' t' - - rfl ht'
+        rw [ht] at ht'; cases ht'
+        exact ⟨h1, h2, h3, h4⟩
+      · intro h
+        obtain ⟨h1, h2, h3, h4⟩ := h now c data t rfl rfl rfl ht
+        exact ⟨⟨⟨h1, h2⟩, h3⟩, h4⟩
+  | client now pkt => simp [Audit2B.bystander]
+  | flush now => simp [Audit2B.bystander]
+  | setCfg cfg => simp [Audit2B.bystander]
+  | crit d => simp [Audit2B.bystander]
+  | stamp idx weak ld ccb cct => simp [Audit2B.bystander]
+  | syncTimeout => simp [Audit2B.bystander]
+
+/-- Bystanders leave the registration manager alone and the down link `j` down with its invariant. -/
+theorem C08_aux_bystanders (cid j : Nat) (es : List Ev) (hb : ∀ e ∈ es, Audit2B.bystander e = true) :
+    ∀ (s : Sys F) (l : FLink F), LiveInv cid j s l →
+      ∃ l', LiveInv cid j (run s es) l' ∧ (run s es).reg = s.reg := by
+  induction es with
+  | nil => intro s l h; exact ⟨l, h, rfl⟩
+  | cons e es ih =>
+    intro s l h
+    have hbe := hb e List.mem_cons_self
+    have hnf : e ≠ .failBind cid := by
+      intro he; rw [he] at hbe; cases hbe
+    obtain ⟨l1, -, hc⟩ := C08_aux_liveInv_step cid j s l e h hnf
+    rcases hc with ⟨h1, -⟩ | ⟨now, data, he, hty, -⟩
+    · obtain ⟨l', h2, h3⟩ := ih (fun e' he' => hb e' (List.mem_cons_of_mem _ he')) _ l1 h1
+      exact ⟨l', h2, h3.trans (Audit2B.bystander_reg s e hbe)⟩
+    · rw [he] at hbe
+      simp [Audit2B.bystander, hty, Audit2B.isRegType] at hbe
+
+/-- **The re-grouping chain (PARTIAL: fixed frame order, bystanders in between).**  State `s`: NO link is connected;
+link `j` (record `l`, conn id `cid`) is down — established before, failure counter 0 — and its reconnect attempt is due
+at the tick `T1` (5000 ms back-off over); the rejoin invariant holds; the registration manager is at rest (nothing
+awaited, no REG1 target, probing over); no bind failure pending for `cid`.  The run is
+
+    .hk T1 :: m1 ++ .uplink d1 cid ngp :: m2 ++ .uplink d2 cid reg2 :: m3 ++ .hk T2 :: m4 ++ [.uplink d3 cid reg3]
+
+(`sA`, `sC`, `sE` name the states after `.hk T1 :: m1`, after `… reg2 :: m3` and after the whole run) with `ngp` of type REG_NGP (0x9211), `reg2` of type REG2 (0x9201) and at least 2 + 256 bytes long, `reg3` of type REG3
+(0x9202), and `m1 … m4` arbitrary lists of bystanders.  Then, frame by frame:
+
+1. the tick `T1` tears link `j` down for a reconnect and puts REG2 with the OLD group id on its wire
+   (and, no link being connected, leaves `active_connections = 0`);
+2. the REG_NGP makes the shell put REG1 with the old id on link `j`'s wire IN THE SAME EVENT;
+3. the REG2 answer replaces the group id by its 256-byte payload and arms the broadcast;
+4. the tick `T2` puts REG2 with the NEW id on the wire of EVERY link of the shell;
+5. after the REG3, link `j` is connected with window 20000, in-flight 0, empty packet log and batch queue, phase
+   `Warming{0, d3}`, and the group is registered again (`has_connected`).
+If the frames are answered before the next tick — `T2 ≤ T1 + 1100`, `d3 ≤ T2 + 1100` — the link is connected within
+`1100 + 1100` ms of the attempt tick.
+
+What is MISSING (why `_partial`): the frames come in this order with only bystanders in between — no OTHER tick and
+no other registration datagram between two frames (a tick while REG2 is awaited takes the "deferred" branch of the
+reconnect loop; a lost REG1 / REG2 answer is retried by `clear_pending_if_timed_out` after 4000 ms and the driver;
+REG_NGP / REG3 answers on the OTHER links interleave), and no fault injections; the general interleaving is not
+proved.  That the receiver answers at all, and in time, is the environment's. -/
+theorem C08_regroup_chain_sys_partial (s : Sys F) (j : Nat) (l : FLink F) (T1 T2 d1 d2 d3 : Nat)
+    (ngp reg2 reg3 : Sys.Bytes) (m1 m2 m3 m4 : List Ev) (sA sC sE : Sys F)
+    (hsA : sA = run s (.hk T1 :: m1))
+    (hsC : sC = run s (.hk T1 :: (m1 ++ .uplink d1 l.core.connId ngp :: (m2 ++ .uplink d2 l.core.connId reg2 :: m3))))
+    (hsE : sE = run s (.hk T1 :: (m1 ++ .uplink d1 l.core.connId ngp :: (m2 ++ .uplink d2 l.core.connId reg2 ::
+      (m3 ++ .hk T2 :: (m4 ++ [.uplink d3 l.core.connId reg3]))))))
+    (hall : ∀ x ∈ s.links, x.core.connected = false)
+    (hl : s.links[j]? = some l) (hd : Down l) (hinv : RejoinInv s)
+    (hidx : s.links.findIdx? (·.core.connId == l.core.connId) = some j)
+    (hfb : l.core.connId ∉ s.failBind) (hidle : RegIdle s.reg)
+    (hdue : l.lastAttemptMs = 0 ∨ T1 - l.lastAttemptMs ≥ 5000)
+    (hngp : Codec.getPacketTypeS ngp = some 37393)
+    (hreg2 : Codec.getPacketTypeS reg2 = some 37377) (hlen : 258 ≤ reg2.length)
+    (hreg3 : Codec.getPacketTypeS reg3 = some 37378)
+    (hm1 : ∀ e ∈ m1, Audit2B.bystander e = true) (hm2 : ∀ e ∈ m2, Audit2B.bystander e = true)
+    (hm3 : ∀ e ∈ m3, Audit2B.bystander e = true) (hm4 : ∀ e ∈ m4, Audit2B.bystander e = true) :
+    (l.core.connId, Codec.createReg2 s.reg.id) ∈ (step s (.hk T1)).2.wire ∧ (step s (.hk T1)).1.reg.active = 0 ∧
+    (step sA (.uplink d1 l.core.connId ngp)).2.wire = [(l.core.connId, Codec.createReg1 s.reg.id)] ∧
+    sC.reg.id = (reg2.drop 2).take 256 ∧ sC.reg.broadcastPending = true ∧
+    (∀ (k : Nat) (x : FLink F), sC.links[k]? = some x →
+      (x.core.connId, Codec.createReg2 ((reg2.drop 2).take 256)) ∈ (step sC (.hk T2)).2.wire) ∧
+    (∃ l', sE.links[j]? = some l' ∧
+      l'.core.connected = true ∧ l'.core.window = 20000 ∧ l'.core.inFlight = 0 ∧ l'.core.log = [] ∧
+      l'.queue = [] ∧ l'.core.phase = .warming 0 d3) ∧
+    sE.reg.hasConnected = true ∧
+    (T2 ≤ T1 + 1100 → d3 ≤ T2 + 1100 → d3 ≤ T1 + 1100 + 1100) := by
+  generalize hcid : l.core.connId = cid at *
+  have hcons : ∀ (x : Sys F) (e : Ev) (m rest : List Ev),
+      run x (e :: (m ++ rest)) = run (run (step x e).1 m) rest := fun x e m rest => by
+    rw [C08_aux_run_cons, C08_aux_run_append]
+  have h0 : LiveInv cid j s l := ⟨hl, hd, hcid, hinv, hidx, hfb⟩
+  -- frame 1: the tick T1
+  have hto := C08_aux_down_timed_out l hd T1
+  have hsa := (C08_aux_down_ready l hd T1).2 hdue
+  have hw1 : (cid, Codec.createReg2 s.reg.id) ∈ (step s (.hk T1)).2.wire := by
+    have := hk_wire_reg2 s T1 j l hl hidle.1 hd.2.1 hto hsa
+    rw [hcid] at this; exact this
+  obtain ⟨ha1, hid1⟩ := Audit2B.hk_active_zero s T1 hall
+  have hidle1 : RegIdle (step s (.hk T1)).1.reg := hk_reg_idle s T1 hidle
+  obtain ⟨l1, -, hc1⟩ := C08_aux_liveInv_step cid j s l (.hk T1) h0 (by intro h; cases h)
+  have hL1 : LiveInv cid j (step s (.hk T1)).1 l1 := by
+    rcases hc1 with ⟨h, -⟩ | ⟨_, _, he, -⟩
+    · exact h
+    · cases he
+  -- bystanders m1
+  obtain ⟨lA, hLA, hrA⟩ := C08_aux_bystanders cid j m1 hm1 _ l1 hL1
+  have hsA' : sA = run (step s (.hk T1)).1 m1 := by rw [hsA, C08_aux_run_cons]
+  rw [← hsA'] at hLA hrA
+  -- frame 2: REG_NGP
+  have hidleA : RegIdle sA.reg := by rw [hrA]; exact hidle1
+  have hactA : sA.reg.active = 0 := by rw [hrA]; exact ha1
+  obtain ⟨n1, n2, n3, n4, n5, -⟩ := Audit2B.ngp_step sA d1 cid ngp j lA hLA.link hLA.idx hngp hidleA hactA
+  have hidA : sA.reg.id = s.reg.id := by rw [hrA]; exact hid1
+  obtain ⟨l2, -, hc2⟩ := C08_aux_liveInv_step cid j sA lA (.uplink d1 cid ngp) hLA (by intro h; cases h)
+  have hL2 : LiveInv cid j (step sA (.uplink d1 cid ngp)).1 l2 := by
+    rcases hc2 with ⟨h, -⟩ | ⟨_, _, he, hty, -⟩
+    · exact h
+    · cases he; rw [hngp] at hty; cases hty
+  -- bystanders m2
+  obtain ⟨lB, hLB, hrB⟩ := C08_aux_bystanders cid j m2 hm2 _ l2 hL2
+  generalize hsB : run (step sA (.uplink d1 cid ngp)).1 m2 = sB at hLB hrB
+  -- frame 3: REG2
+  have hpB : sB.reg.pending = some j := by rw [hrB]; exact n2
+  obtain ⟨r1, r2, r3, r4, -, r6, -⟩ := Audit2B.reg2_step sB d2 cid reg2 j lB hLB.link hLB.idx hreg2 hlen hpB
+  obtain ⟨l3, -, hc3⟩ := C08_aux_liveInv_step cid j sB lB (.uplink d2 cid reg2) hLB (by intro h; cases h)
+  have hL3 : LiveInv cid j (step sB (.uplink d2 cid reg2)).1 l3 := by
+    rcases hc3 with ⟨h, -⟩ | ⟨_, _, he, hty, -⟩
+    · exact h
+    · cases he; rw [hreg2] at hty; cases hty
+  -- bystanders m3
+  obtain ⟨lC, hLC, hrC⟩ := C08_aux_bystanders cid j m3 hm3 _ l3 hL3
+  have hsC' : sC = run (step sB (.uplink d2 cid reg2)).1 m3 := by
+    rw [hsC, hcons, ← hsA', hcons, hsB, C08_aux_run_cons]
+  rw [← hsC'] at hLC hrC
+  have hprobe : Reg.isProbing sC.reg = false := by
+    have hp : sC.reg.probing = sA.reg.probing := by
+      rw [hrC, r6, hrB, n5]
+    unfold Reg.isProbing at hidleA ⊢
+    rw [hp]
+    exact hidleA.2.2
+  have hidleC : RegIdle sC.reg := ⟨by rw [hrC]; exact r2, by rw [hrC]; exact r3, hprobe⟩
+  have hidC : sC.reg.id = (reg2.drop 2).take 256 := by rw [hrC]; exact r1
+  have hbC : sC.reg.broadcastPending = true := by rw [hrC]; exact r4
+  -- frame 4: the broadcast tick
+  obtain ⟨b1, -, -⟩ := Audit2B.hk_broadcast sC T2 hidleC hbC
+  rw [hidC] at b1
+  obtain ⟨l4, -, hc4⟩ := C08_aux_liveInv_step cid j sC lC (.hk T2) hLC (by intro h; cases h)
+  have hL4 : LiveInv cid j (step sC (.hk T2)).1 l4 := by
+    rcases hc4 with ⟨h, -⟩ | ⟨_, _, he, -⟩
+    · exact h
+    · cases he
+  -- bystanders m4
+  obtain ⟨lD, hLD, -⟩ := C08_aux_bystanders cid j m4 hm4 _ l4 hL4
+  generalize hsD : run (step sC (.hk T2)).1 m4 = sD at hLD
+  -- frame 5: REG3
+  obtain ⟨l', hl', hp⟩ := C08_aux_rejoin cid j sD lD hLD d3 reg3 hreg3
+  have hhc := (C08_reg3_applies sD d3 cid reg3 j lD hLD.link hLD.idx (C08_aux_type_nonempty reg3 _ hreg3) hreg3).2
+  have hfin : sE = (step sD (.uplink d3 cid reg3)).1 := by
+    rw [hsE, hcons, ← hsA', hcons, hsB, hcons, ← hsC', hcons, hsD]
+    rfl
+  refine ⟨hw1, ha1, ?_, hidC, hbC, b1, ?_, ?_, fun a b => by omega⟩
+  · rw [n1, hidA]
+  · rw [hfin]; exact ⟨l', hl', hp⟩
+  · rw [hfin]; exact hhc
+
+/-- Non-vacuity of the chain: BOTH links down (conn id 5: last attempt at 6500, not due at 7000; conn id 7 = `exDown`:
+last attempt at 2000, due), group id `[1]`, manager at rest.  Tick at 7000, a client datagram (dropped: no link),
+REG_NGP on link 7 at 7050, a flush tick, the REG2 answer with the new id `9 × 256` at 7100, `sync_conn_timeout`, the
+tick at 8000, the REG3 at 8050. -/
+def exAllDown : Sys Int :=
+  { links := [{ exDown with core := { exDown.core with connId := 5 }, lastAttemptMs := 6500 }, exDown],
+    reg := { (Reg.Reg.new [1] [2]) with hasConnected := true, probing := .complete, active := 1 } }
+
+def exNewId : List UInt8 := List.replicate 256 9
+
+theorem C08_aux_exAllDown_inv : RejoinInv exAllDown := by
+  intro j l hl
+  match j, hl with
+  | 0, hl =>
+    cases hl
+    exact ⟨fun _ => rfl, fun _ => ⟨rfl, fun _ => (C08_clean_def _).2 (by decide)⟩⟩
+  | 1, hl =>
+    cases hl
+    exact ⟨fun _ => rfl, fun _ => ⟨rfl, fun _ => (C08_clean_def exDown).2 (by decide)⟩⟩
+  | (n + 2), hl => cases hl
+
+example :=
+  C08_regroup_chain_sys_partial exAllDown 1 exDown 7000 8000 7050 7100 8050
+    [0x92, 0x11] ([0x92, 0x01] ++ exNewId) [0x92, 0x02]
+    [.client 7010 [0x80, 0x02, 0, 0, 0, 0, 0, 0]] [.flush 7060] [.syncTimeout] [] _ _ _ rfl rfl rfl
+    (by intro x hx; simp only [exAllDown, List.mem_cons, List.not_mem_nil, or_false] at hx; rcases hx with rfl | rfl <;> rfl)
+    rfl ⟨rfl, by decide, rfl⟩ C08_aux_exAllDown_inv (by decide) (by decide) ⟨rfl, rfl, by decide⟩
+    (Or.inr (by decide)) (by decide) (by decide +kernel) (by decide +kernel) (by decide)
+    (by decide) (by decide) (by decide) (by decide)
+
+/-- … and what that run puts on the wire: the tick at 7000 re-sends REG2 with the old id `[1]` on link 7 only (link 5
+is inside its back-off); the REG_NGP is answered in the same event by REG1 with the old id; after the REG2 answer the
+tick at 8000 sends REG2 with the NEW id on both links; the REG3 at 8050 connects link 7 (window 20000). -/
+example :
+    let r2 : List UInt8 := [0x92, 0x01] ++ exNewId
+    let pre : List Ev := [.hk 7000, .client 7010 [0x80, 0x02, 0, 0, 0, 0, 0, 0]]
+    let mid : List Ev := pre ++ [.uplink 7050 7 [0x92, 0x11], .flush 7060, .uplink 7100 7 r2, .syncTimeout]
+    (step exAllDown (.hk 7000)).2.wire = [(7, Codec.createReg2 [1])] ∧
+    (step (run exAllDown pre) (.uplink 7050 7 [0x92, 0x11])).2.wire = [(7, Codec.createReg1 [1])] ∧
+    (run exAllDown mid).reg.id = exNewId ∧
+    (step (run exAllDown mid) (.hk 8000)).2.wire = [(5, Codec.createReg2 exNewId), (7, Codec.createReg2 exNewId)] ∧
+    ((run exAllDown (mid ++ [.hk 8000, .uplink 8050 7 [0x92, 0x02]])).links.map fun l =>
+      (l.core.connected, l.core.window)) = [(false, 20000), (true, 20000)] := by
+  decide +kernel
 
 end Srtla.Props.C08
